@@ -1,0 +1,108 @@
+//! Verification hooks (only built with `--cfg qcow2_rs_verif`): a read-only
+//! snapshot of the in-ram metadata and public entry points to the cluster
+//! allocator. Nothing in here is reachable in a normal build.
+use super::*;
+use crate::meta::Table;
+
+/// One cached table slice: where it lives on disk, its bytes, dirty or not
+#[derive(Debug, Clone)]
+pub struct VerifSlice {
+    pub offset: Option<u64>,
+    pub data: Vec<u8>,
+    pub dirty: bool,
+    pub users: usize,
+}
+
+/// In-ram view of the metadata; `None` fields could not be read because
+/// the lock protecting them was held exclusively
+#[derive(Debug, Clone, Default)]
+pub struct VerifSnapshot {
+    pub l1_offset: Option<u64>,
+    pub l1_entries: usize,
+    pub l1: Option<Vec<u8>>,
+    pub reftable_offset: Option<u64>,
+    pub reftable_clusters: usize,
+    pub reftable: Option<Vec<u8>>,
+    pub l2_slices: Vec<VerifSlice>,
+    pub rb_slices: Vec<VerifSlice>,
+    /// slices that are locked exclusively right now (content unknown)
+    pub busy_slices: usize,
+    pub new_clusters: Option<Vec<u64>>,
+    pub free_cluster_offset: u64,
+    pub need_flush: bool,
+}
+
+fn table_bytes<B: Table>(t: &B) -> Vec<u8> {
+    unsafe { std::slice::from_raw_parts(t.as_ptr(), t.byte_size()).to_vec() }
+}
+
+impl<T: Qcow2IoOps> Qcow2Dev<T> {
+    /// Allocator entry point for allocation histories
+    pub async fn verif_allocate_clusters(&self, count: usize) -> Qcow2Result<Option<(u64, usize)>> {
+        self.allocate_clusters(count).await
+    }
+
+    /// Allocator entry point for allocation histories
+    pub async fn verif_free_clusters(&self, host_cluster: u64, count: usize) -> Qcow2Result<()> {
+        self.free_clusters(host_cluster, count).await
+    }
+
+    /// Put the allocator's free hint where an allocation history wants it
+    pub fn verif_set_free_cluster_offset(&self, host_cluster: u64) {
+        self.free_cluster_offset.store(host_cluster, Ordering::Relaxed);
+    }
+
+    /// Never blocks and changes nothing (no lru update, no lock kept)
+    pub fn verif_snapshot(&self) -> VerifSnapshot {
+        let mut s = VerifSnapshot {
+            free_cluster_offset: self.free_cluster_offset.load(Ordering::Relaxed),
+            need_flush: self.need_flush_meta(),
+            ..Default::default()
+        };
+
+        if let Ok(h) = self.header.try_read() {
+            s.l1_offset = Some(h.l1_table_offset());
+            s.l1_entries = h.l1_table_entries();
+            s.reftable_offset = Some(h.reftable_offset());
+            s.reftable_clusters = h.reftable_clusters();
+        }
+        if let Ok(l1) = self.l1table.try_read() {
+            s.l1 = Some(table_bytes(&*l1));
+            if let Some(off) = l1.get_offset() {
+                s.l1_offset = Some(off);
+            }
+        }
+        if let Ok(rt) = self.reftable.try_read() {
+            s.reftable = Some(table_bytes(&*rt));
+            if let Some(off) = rt.get_offset() {
+                s.reftable_offset = Some(off);
+            }
+        }
+        for (_, e) in self.l2cache.verif_entries() {
+            match e.value().try_read() {
+                Ok(t) => s.l2_slices.push(VerifSlice {
+                    offset: t.get_offset(),
+                    data: table_bytes(&*t),
+                    dirty: e.is_dirty(),
+                    users: std::sync::Arc::strong_count(&e) - 1,
+                }),
+                Err(_) => s.busy_slices += 1,
+            }
+        }
+        for (_, e) in self.refblock_cache.verif_entries() {
+            match e.value().try_read() {
+                Ok(t) => s.rb_slices.push(VerifSlice {
+                    offset: t.get_offset(),
+                    data: table_bytes(&*t),
+                    dirty: e.is_dirty(),
+                    users: std::sync::Arc::strong_count(&e) - 1,
+                }),
+                Err(_) => s.busy_slices += 1,
+            }
+        }
+        if let Ok(map) = self.new_cluster.try_read() {
+            s.new_clusters = Some(map.keys().copied().collect());
+        }
+        s
+    }
+}
